@@ -716,8 +716,10 @@ func (c *Client) Do(ctx context.Context, q Query) (err error) {
 			}
 		}
 	}
+	sent := make(chan struct{})
 	g.Go(func() (rerr error) {
 		// Sending data.
+		defer close(sent)
 		defer func() {
 			if rerr != nil && !errors.Is(rerr, context.Canceled) && !errors.Is(rerr, context.DeadlineExceeded) {
 				// Failed not because of cancellation, e.g. on write error.
@@ -837,6 +839,31 @@ func (c *Client) Do(ctx context.Context, q Query) (err error) {
 				return nil
 			}
 			return errors.Wrap(err, "canceled")
+		}
+		if gotException.Load() {
+			// Query is over for the server, it can stop reading: sender
+			// blocked in write (no deadline without context deadline) would
+			// never return. Giving it a second to finish, then interrupting
+			// it until it is done; interrupted write fails the sender, so
+			// connection is closed below.
+			grace := time.NewTimer(time.Second)
+			select {
+			case <-sent:
+				grace.Stop()
+				return nil
+			case <-grace.C:
+			}
+			wake := time.NewTicker(time.Millisecond * 20)
+			for waiting := true; waiting; {
+				_ = c.conn.SetWriteDeadline(time.Now())
+				select {
+				case <-sent:
+					waiting = false
+				case <-wake.C:
+				}
+			}
+			wake.Stop()
+			_ = c.conn.SetWriteDeadline(time.Time{})
 		}
 		return nil
 	})
